@@ -212,7 +212,7 @@ class PhystDataFrameAccessor:
                 f"At least one of the columns '{columns}' could not be found."
             ) from exc
         if isinstance(data, pd.Series) or data.shape[1] == 1:
-            return data.physt.h1(bins, **kwargs)
+            return data.physt.h1(bins=bins, **kwargs)
         if not isinstance(data, pd.DataFrame):
             raise TypeError(
                 f"Argument `columns` does not select a DataFrame: '{columns}'"
